@@ -111,3 +111,102 @@ theorem mat_fine (cfg : Cfg K) (q : Mat K) : PieceFine cfg (.mat q) := Or.inl rf
 
 end
 end Svg.Doc
+
+namespace Svg.Doc
+set_option linter.unusedSectionVars false
+section
+variable {K : Type} [Add K] [Sub K] [Mul K] [Div K] [Neg K] [Zero K] [One K] [BEq K]
+  [LT K] [DecidableLT K] [LE K] [DecidableLE K] [NatCast K] [Trig K] [Color.PyRound K]
+
+/-- a computation whose only failure is the marker of a symbolic length -/
+def OD {α : Type} (c : Py α) : Prop := ∀ e, c = .error e → e = .deferred
+
+theorem od_pure {α : Type} (x : α) : OD (pure x : Py α) := by intro e h; cases h
+theorem od_ok {α : Type} (x : α) : OD (.ok x : Py α) := by intro e h; cases h
+theorem od_err {α : Type} : OD (.error .deferred : Py α) := by intro e h; cases h; rfl
+
+theorem od_bind {α β : Type} {c : Py α} {f : α → Py β} (hc : OD c) (hf : ∀ x, OD (f x)) : OD (c >>= f) := by
+  intro e h
+  cases hcv : c with
+  | error e' =>
+    rw [hcv] at h
+    simp only [bind, Except.bind] at h
+    cases h
+    exact hc _ hcv
+  | ok a =>
+    rw [hcv] at h
+    exact hf a e h
+
+theorem od_ite {α : Type} {p : Prop} [Decidable p] {a b : Py α} (ha : OD a) (hb : OD b) :
+    OD (if p then a else b) := by
+  split
+  · exact ha
+  · exact hb
+
+theorem od_numOf (cfg : Cfg K) (d : Dict) (key : String) (dflt : K) (rel : Dim K) : OD (numOf cfg d key dflt rel) := by
+  unfold numOf
+  split
+  · exact od_ok _
+  · exact od_err
+
+theorem od_map {α β : Type} {c : Py α} (f : α → β) (hc : OD c) : OD (c.map f) := by
+  intro e h
+  cases hcv : c with
+  | error e' => rw [hcv] at h; simp only [Except.map] at h; cases h; exact hc _ hcv
+  | ok a => rw [hcv] at h; simp only [Except.map] at h; cases h
+
+theorem od_optNumOf (cfg : Cfg K) (d : Dict) (key : String) (rel : Dim K) : OD (optNumOf cfg d key rel) := by
+  unfold optNumOf
+  split
+  · exact od_ok _
+  · exact od_map _ (od_numOf cfg d key 0 rel)
+
+theorem od_tfMatrix (cfg : Cfg K) (ps : List (TfPiece K)) (h : ∀ p ∈ ps, PieceFine cfg p) : OD (tfMatrix cfg ps) := by
+  intro e he
+  rw [tfMatrix_eq_fold] at he
+  exact fold_err_kinds cfg ps Mat.identity e h (by rw [he]; rfl)
+
+/-- **Stage B raises nothing.** A shape constructor applied to a record whose transform pieces
+    are all acceptable either yields a shape (or none) or reports a symbolic length. -/
+theorem od_shapeOf (cfg : Cfg K) (tau : K) (r : Rec K)
+    (hf : ∀ p ∈ r.vals.tf.getD [], PieceFine cfg p) (hv : ∀ p ∈ r.vals.vt.getD [], PieceFine cfg p) :
+    OD (shapeOf cfg tau r) := by
+  unfold shapeOf
+  apply od_bind (od_tfMatrix cfg _ hf); intro m
+  apply od_bind (od_tfMatrix cfg _ hv); intro vt
+  apply od_bind
+  · split
+    · exact od_ok _
+    · exact od_err
+  intro sw
+  repeat' first
+    | exact od_pure _
+    | exact od_ok _
+    | exact od_err
+    | (apply od_bind (od_numOf _ _ _ _ _); intro _)
+    | (apply od_bind (od_optNumOf _ _ _ _); intro _)
+    | apply od_ite
+    | split
+
+theorem od_shapesOf (cfg : Cfg K) (tau : K) (rs : List (Rec K))
+    (h : ∀ r ∈ rs, (∀ p ∈ r.vals.tf.getD [], PieceFine cfg p) ∧ (∀ p ∈ r.vals.vt.getD [], PieceFine cfg p)) :
+    OD (shapesOf cfg tau rs) := by
+  induction rs with
+  | nil => exact od_ok _
+  | cons r rest ih =>
+    have hr := h r List.mem_cons_self
+    have ihr := ih (fun q hq => h q (List.mem_cons_of_mem _ hq))
+    unfold shapesOf
+    have hs := od_shapeOf cfg tau r hr.1 hr.2
+    cases hsv : shapeOf cfg tau r with
+    | ok o =>
+      cases o with
+      | none => exact ihr
+      | some s => exact od_map _ ihr
+    | error e =>
+      have := hs e hsv
+      subst this
+      exact od_err
+
+end
+end Svg.Doc
